@@ -106,6 +106,19 @@ theorem aluminium_compressed_3 : aluminium.Compressed 3 := by
   · norm_num [SteinC.Γc]
   · norm_num [SteinC.q]
 
+/-- every density ρ₀ = 2.703 < ρ < 9 g/cm³ is on aluminium's compressed branch (the denominator 1 - 1.4 η of the
+Hugoniot vanishes only at ρ = ρ₀/(1 - 1/1.4) ≈ 9.46) -/
+theorem aluminium_compressed (ρ : ℝ) (h1 : 2703 / 1000 < ρ) (h2 : ρ < 9) : aluminium.Compressed ρ := by
+  rw [aluminium_constants]
+  have hρ : (0 : ℝ) < ρ := by linarith
+  have hy1 : (2703 : ℝ) / 1000 / ρ < 1 := by rw [div_lt_one hρ]; exact h1
+  have hy2 : (3 : ℝ) / 10 < 2703 / 1000 / ρ := by rw [lt_div_iff₀ hρ]; linarith
+  refine ⟨by norm_num, h1, ?_, ?_⟩
+  · simp only [SteinC.Γc]
+    nlinarith
+  · simp only [SteinC.q]
+    nlinarith
+
 /-- non-vacuity -/
 example : HasDerivAt (fun q => aluminium.eos.e 3 q) (aluminium.eos.de_dP 3 0) 0 :=
   stein_de_dP_compressed_partial _ _ _ aluminium_compressed_3
